@@ -260,6 +260,18 @@ pub fn case_done() {
 }
 
 static mut CHECK_ID: [u8; 8] = [0; 8];
+/// VIOLATION lines printed so far (a check that dies after having reported a violation still ends with exit 1)
+static VIOLATIONS_PRINTED: AtomicU64 = AtomicU64::new(0);
+
+/// exit status of a check that cannot go on (time limit, hanging case): 2, unless a violation was
+/// already reported - that stands
+pub fn inconclusive_status() -> i32 {
+    if VIOLATIONS_PRINTED.load(Ordering::SeqCst) > 0 {
+        1
+    } else {
+        2
+    }
+}
 
 /// SIGSEGV/SIGBUS (stack overflow of a worker): report the cases in flight and
 /// end the check as INCONCLUSIVE (exit 2) - resource exhaustion is never a violation.
@@ -274,7 +286,8 @@ extern "C" fn on_segv(_sig: libc::c_int) {
     msg.push('\n');
     unsafe {
         libc::write(1, msg.as_ptr() as *const libc::c_void, msg.len());
-        libc::_exit(2);
+        // a violation that was already reported stands
+        libc::_exit(if VIOLATIONS_PRINTED.load(Ordering::SeqCst) > 0 { 1 } else { 2 });
     }
 }
 
@@ -311,12 +324,12 @@ fn start_watchdog(id: &str, tier: Tier) {
             std::thread::sleep(std::time::Duration::from_millis(500));
             if t0.elapsed().as_secs() >= limit {
                 println!("INCONCLUSIVE property={id} reason=time-limit-{limit}s");
-                std::process::exit(2);
+                std::process::exit(inconclusive_status());
             }
             if let Ok(r) = RUNNING.lock() {
                 if let Some(e) = r.iter().find(|e| e.1.elapsed().as_secs() >= case_limit) {
                     println!("INCONCLUSIVE property={id} reason=case-exceeds-{case_limit}s case={}", one_line(&e.2, 1500));
-                    std::process::exit(2);
+                    std::process::exit(inconclusive_status());
                 }
             }
         }
@@ -438,6 +451,7 @@ impl Report {
         let path = format!("{dir}/{}-{:016x}.json", self.id, fnv(text.as_bytes()));
         let _ = std::fs::write(&path, text);
         println!("VIOLATION property={} replay={}", self.id, path);
+        VIOLATIONS_PRINTED.fetch_add(1, Ordering::SeqCst);
         println!("  sub={} sig={} msg={}", sub, fail.sig, one_line(&fail.msg, 600));
         println!("  case={}", one_line(&fail.case.to_string(), 800));
     }
@@ -473,6 +487,10 @@ impl Report {
                 }
             }
             self.subs.push((name.to_string(), stats));
+            return;
+        }
+        if cases == 0 {
+            // a replay-only entry point (its cases come from an engine outside this driver)
             return;
         }
         let workers = self.workers.max(1);
@@ -665,6 +683,20 @@ impl Report {
         }
         stats.wall_s = t0.elapsed().as_secs_f64();
         self.subs.push((name.to_string(), stats));
+    }
+
+    /// Results of an engine that runs outside this driver (a libFuzzer campaign): failures come with the
+    /// bytes that replay them through the sub-check `sub` (registered with `random(sub, 0, ..)`).
+    pub fn external(&mut self, sub: &str, oks: Vec<CaseOk>, fails: Vec<(CaseFail, Vec<u8>)>, wall_s: f64) {
+        let mut stats = SubStats::default();
+        for ok in oks {
+            stats.absorb(ok);
+        }
+        for (fail, bytes) in fails {
+            self.handle_fail(sub, &mut stats, fail, Some(&bytes), None);
+        }
+        stats.wall_s = wall_s;
+        self.subs.push((sub.to_string(), stats));
     }
 
     /// A fixed list of cases run sequentially (regression cases, known-finding
